@@ -79,16 +79,23 @@ def run_case(case, seed):
                          python="vf.opcat.build(%r)" % (spec,)))
 
     if case["kind"] == "ill":
+        stage = "construction"
         try:
             A = opcat.build(spec, seed)
+            stage = "application"
             x = np.zeros(A.ishape, dtype=np.complex128)
             y = A(x)
             AH = A.H
             AH(np.zeros(AH.ishape, dtype=np.complex128))
-        except Exception:
-            return dict(states=1, transitions=1, nontrivial=True, outcome="rejected", viol=[])
+        except Exception as ex:
+            if stage == "construction":
+                return dict(states=1, transitions=1, nontrivial=True, outcome="rejected-at-construction", viol=[])
+            # "rejected with an error rather than combined": an operator that exists and only fails when used was combined
+            V("accepted-ill-typed", "operands do not fit (%s) but the operator was built (%s->%s); it only failed when applied: %s: %s" % (
+                opcat.pretty(spec)[:200], list(A.ishape), list(A.oshape), type(ex).__name__, str(ex)[:80]))
+            return dict(states=1, transitions=2, nontrivial=True, outcome="violation:accepted-ill-typed", viol=viol)
         V("accepted-ill-typed", "operands do not fit (%s) but the operator was built and applied; result shape %s" % (
-            programs.pretty(spec)[:200], list(np.asarray(y).shape)))
+            opcat.pretty(spec)[:200], list(np.asarray(y).shape)))
         return dict(states=1, transitions=2, nontrivial=True, outcome="violation:accepted-ill-typed", viol=viol)
 
     def leafM(lspec):
@@ -99,7 +106,11 @@ def run_case(case, seed):
 
     rish, rosh = programs.ref_shapes(full)
     R = programs.ref_matrix(full, leafM)
-    A = opcat.build(spec, seed)
+    opcat.TRACK = []
+    try:
+        A = opcat.build(spec, seed)
+    finally:
+        nodes, opcat.TRACK = opcat.TRACK, None
     trans = 0
     if [int(v) for v in A.ishape] != rish or [int(v) for v in A.oshape] != rosh:
         V("advertised-shapes", "operator advertises %s->%s, reference %s->%s" % (
@@ -131,6 +142,23 @@ def run_case(case, seed):
                   "(output dtype %s)" % (err, yr.dtype))
         except Exception:
             outcome_real = "real-raised"
+    # operators are values: the operands a new operator was made from are still the operators they were
+    # (differential oracle: the same sub-expression built on its own, which has its own case in this enumeration)
+    if M is not None and not viol:
+        for nspec, nobj in nodes[:-1]:
+            k = "node:" + repr(nspec) + str(seed)
+            if k not in _leaf_cache:
+                _leaf_cache[k] = dense.dense_linop(opcat.build(nspec, seed))
+            try:
+                Mn = dense.dense_linop(nobj)
+                en = dense.relerr(Mn, _leaf_cache[k]) if Mn.shape == _leaf_cache[k].shape else float("inf")
+            except Exception as ex:
+                en = float("inf")
+            trans += _leaf_cache[k].shape[1]
+            if not en <= TOL:
+                V("operand-changed", "after building and applying the expression, its operand %s differs from the same "
+                  "operator built on its own by %.3g" % (opcat.pretty(nspec)[:120], en))
+                break
     kidsM = [programs.ref_matrix(k, leafM) for k in full.get("kids", [])]
     nontrivial = all(km.shape != R.shape or not np.allclose(km, R) for km in kidsM)
     return dict(states=1, transitions=trans, nontrivial=bool(nontrivial),
